@@ -614,6 +614,24 @@ func (e *Evaluator) evalBinaryExpr(expr *ExprBinary) (*Cell, error) {
 			memberVal.ParentObj = &left.Value
 			return NewCell(memberVal), nil
 		}
+		if member.Value.Tag == ValueNativeFn {
+			// methods live in prototype tables shared by every value of the
+			// type: hand out a bound copy instead of the shared cell, so that
+			// nested method calls keep their own receiver and an assignment
+			// through a method name cannot overwrite the prototype. The copy
+			// remembers where it was looked up, so that assigning to it creates
+			// the member (on an object) or is refused (on anything else)
+			bound := NewCell(member.Value)
+			bound.Value.Binding = &left.Value
+			bound.Value.ParentObj = &left.Value
+			if right.Value.Tag == ValueNum {
+				bound.Value.Num = right.Value.Num
+			} else {
+				key := right.Value.String()
+				bound.Value.Str = &key
+			}
+			return bound, nil
+		}
 		member.Value.Binding = &left.Value
 
 		return member, nil
@@ -779,7 +797,7 @@ func (e *Evaluator) createSpeculativeObjects(specObj *Cell) (*Cell, error) {
 }
 
 func (e *Evaluator) evalAssignment(expr Expr, left *Cell, right *Cell) (*Cell, error) {
-	if left.Value.Tag == ValueNil && left.Value.ParentObj != nil {
+	if (left.Value.Tag == ValueNil || left.Value.Tag == ValueNativeFn) && left.Value.ParentObj != nil {
 		// speculative object creation
 		var err error
 		left, err = e.createSpeculativeObjects(left)
